@@ -213,6 +213,13 @@ def real_part(tier, pid, focus, verdict):
             results.append(ce)
             if ce['cheated']:
                 break
+        for k in range(2 if tier == 'quick' else 6):
+            ce = cheat_exit_scenario(root, bindir, verdict, fail=True)
+            ce['sc'] = dict(ce['sc'], id='cheat_exit_fail_%d' % k)
+            n_cheat += 1 if ce['cheated'] else 0
+            results.append(ce)
+            if ce['cheated']:
+                break
         results.append(cycle_parallel_scenario(root, bindir))
         nc = nested_cheat_scenario(root, bindir)
         results.append(nc)
@@ -298,17 +305,19 @@ def real_part(tier, pid, focus, verdict):
                         'failing': sum(1 for s in scs if s['fail'])}}
 
 
-def cheat_exit_scenario(root, bindir, verdict):
+def cheat_exit_scenario(root, bindir, verdict, fail=False):
     """deterministic scenario in which a sub-redo gives up its token while it waits for a lock held by another
-    invocation, borrows one (the log viewer follows its target), builds on it and has nothing left when it exits"""
+    invocation, borrows one (the log viewer follows its target), builds on it and has nothing left when it exits;
+    with fail=True the job built on the borrowed token fails, so the process leaves with an error"""
     import subprocess
-    d = os.path.join(root, 'cheat_exit')
+    d = os.path.join(root, 'cheat_exit_fail' if fail else 'cheat_exit')
     shutil.rmtree(d, ignore_errors=True)
     p = os.path.join(d, 'p')
     os.makedirs(p)
     files = {'a.do': 'redo-ifchange x\necho "a working" >&2\nsleep 1.0\necho a\n',
              'b.do': 'sleep 2\necho b\n',
-             'x.do': 'if [ -n "$FAILX" ]; then sleep 1.5; echo "x fails" >&2; exit 1; fi\nsleep 0.2\necho x\n'}
+             'x.do': 'if [ -n "$FAILX" ]; then sleep 1.5; echo "x fails" >&2; exit 1; fi\nsleep 0.2\n'
+                     'if [ -n "$FAILA" ]; then echo "x fails again" >&2; exit 1; fi\necho x\n'}
     for n, t in files.items():
         with open(os.path.join(p, n), 'w') as f:
             f.write(t)
@@ -319,10 +328,10 @@ def cheat_exit_scenario(root, bindir, verdict):
     pb = subprocess.Popen(['redo', 'x'], cwd=p, env=envb, stdin=subprocess.DEVNULL, stdout=subprocess.DEVNULL,
                           stderr=subprocess.DEVNULL, start_new_session=True)
     time.sleep(0.4)
-    r = jobdrive.run_build(bindir, p, trace, ['redo', '-j1', 'a', 'b'], timeout=60)
+    r = jobdrive.run_build(bindir, p, trace, ['redo', '-j1', 'a', 'b'], timeout=60, extra_env={'FAILA': '1'} if fail else None)
     pb.wait()
-    sc = {'id': 'cheat_exit', 'j': 1, 'inherit': False}
-    probs = jobdrive.classify(r, True)
+    sc = {'id': 'cheat_exit_fail' if fail else 'cheat_exit', 'j': 1, 'inherit': False}
+    probs = jobdrive.classify(r, not fail)
     cheated = '"ev":"Cheat"' in open(trace).read()
     res = {'sc': sc, 'dir': d, 'trace': trace, 'problems': ['redo -j1 a b: ' + x for x in probs], 'cmds': [r], 'pj': files,
            'cheated': cheated}
